@@ -564,8 +564,134 @@ func c16Scenarios(tier string) []*world.Scenario {
 // ---------------------------------------------------------------------------------------------
 // C20: reads are spread over all healthy replicas of the owning master.
 
+// c20BanRecovery: a replica has a short outage during which a read's dial to it fails (the request path bans it), then
+// it is back. The REAL health monitor goroutines run (as cooperative threads: virtual 5 s ticker, probe outcome = node
+// up?). After the outage, the ban window and one monitor round, a run of reads under every random outcome must reach
+// every healthy replica again - judged separately for the executions in which the ban was actually set.
+func c20BanRecovery(downIdx int, tier string) *world.Scenario {
+	nodes := T3m()
+	reps := []string{"10.0.1.1:7000", "10.0.1.2:7000"}
+	for i, a := range reps {
+		nodes = append(nodes, world.NodeSpec{Name: fmt.Sprintf("a%d", i+1), Addr: a, Master: "aaa"})
+	}
+	down := reps[downIdx]
+	sc := &world.Scenario{Nodes: nodes, Bound: 0, FreeKinds: []string{"intn"}, IntnChoice: true, Horizon: 600, Family: "ban-recovery",
+		CheckOwner: true, Monitors: true, RetryTimeoutMs: 10,
+		Faults: []world.Fault{{Kind: "node-down", Addr: down}, {Kind: "node-up", Addr: down, AfterTicks: 1}},
+		Ticks:  []time.Duration{time.Second, 5 * time.Second, 6 * time.Second}}
+	sc.IntnGate = func(w *world.World) bool { return w.Ticks >= 3 }
+	key := keysA[0]
+	r := GetReq(key)
+	r.Expect = nil
+	pre, run := 2, 4
+	var rr []Req
+	for j := 0; j < pre+run; j++ {
+		rr = append(rr, r)
+	}
+	cs := ClientOf(rr, false)
+	for j := range cs.Chunks {
+		cs.Chunks[j].WaitReplies = j
+		if j == 0 {
+			cs.Chunks[j].Gate = func(w *world.World) bool { return w.Down[down] }
+		}
+		if j >= pre {
+			cs.Chunks[j].WaitTicks = 3
+			cs.Chunks[j].Gate = func(w *world.World) bool { return w.ThreadsIdle() }
+		}
+	}
+	sc.Clients = []world.ClientSpec{cs}
+	// the clock moves on only when the client has its replies so far, the node is back, and the monitors have had their turn
+	sc.TickGate = func(w *world.World) bool {
+		switch w.Ticks {
+		case 0:
+			return len(w.Clients) > 0 && w.Clients[0].NReplies >= pre
+		case 1:
+			return w.FaultsDone()
+		default:
+			return w.ThreadsIdle()
+		}
+	}
+	sc.Name = fmt.Sprintf("C20/ban-recovery/down=%s", down)
+	sc.Observe = func(w *world.World) string {
+		set := map[string]bool{}
+		n := 0
+		for _, rec := range w.DataCmds("") {
+			if hasKey(rec.Args, key) && !world.IsError(rec.Reply) {
+				n++
+				if rec.CR >= pre {
+					set[rec.Addr] = true
+				}
+			}
+		}
+		var l []string
+		for a := range set {
+			l = append(l, a)
+		}
+		sort.Strings(l)
+		return fmt.Sprintf("dialfail=%v|%s", w.DialCount(down) > 0 && w.Clients[0].NReplies >= pre && dialFailed(w, down), strings.Join(l, ","))
+	}
+	sc.Check = func(w *world.World) []world.Violation {
+		c := w.Clients[0]
+		rs, rest, malformed := world.SplitReplies(c.Received)
+		if malformed || len(rest) > 0 || len(rs) != pre+run {
+			return []world.Violation{{Sig: "healthy-replica-unreachable", Msg: fmt.Sprintf("client received %d of %d replies: %q", len(rs), pre+run, c.Received)}}
+		}
+		for j := pre; j < len(rs); j++ {
+			if world.IsError(rs[j]) {
+				return []world.Violation{{Sig: "healthy-replica-unreachable", Msg: fmt.Sprintf("read %d, sent after the outage, the ban window and a monitor round, was answered %q", j, rs[j])}}
+			}
+		}
+		return nil
+	}
+	sc.Final = func(obs map[string]int) []world.Violation {
+		for _, grp := range []string{"dialfail=true", "dialfail=false"} {
+			served := map[string]bool{}
+			n := 0
+			for k, cnt := range obs {
+				parts := strings.SplitN(k, "|", 2)
+				if parts[0] != grp {
+					continue
+				}
+				n += cnt
+				for _, a := range strings.Split(parts[1], ",") {
+					if a != "" {
+						served[a] = true
+					}
+				}
+			}
+			if n == 0 {
+				continue
+			}
+			for _, h := range reps {
+				if !served[h] {
+					var seen []string
+					for a := range served {
+						seen = append(seen, a)
+					}
+					sort.Strings(seen)
+					return []world.Violation{{Sig: "healthy-replica-unreachable", Msg: fmt.Sprintf("replica %s was unreachable for a moment (%s: a read's dial to it failed during the outage), then came back; after the ban window and a health-monitor round, over ALL random outcomes of a run of %d reads (%d executions) it never serves a read again; served by {%s}", down, grp, run, n, strings.Join(seen, ", "))}}
+				}
+			}
+		}
+		return nil
+	}
+	return sc
+}
+
+// dialFailed: a dial to addr was attempted while it was down (the request path has seen the outage).
+func dialFailed(w *world.World, addr string) bool {
+	n := 0
+	for _, bc := range w.BConns {
+		if bc.Addr == addr {
+			n++
+		}
+	}
+	return w.DialCount(addr) > n
+}
+
 func c20Scenarios(tier string) []*world.Scenario {
 	out := c20Reparent()
+	out = append(out, c20BanRecovery(0, tier), c20BanRecovery(1, tier))
 	for nrep := 2; nrep <= 3; nrep++ {
 		// per replica: healthy / pool missing (node not in the proxy's pool map because its address is unknown)
 		for mask := 0; mask < 1<<nrep; mask++ {
@@ -811,7 +937,7 @@ func init() {
 		Scenarios: c16Scenarios, BudgetQuick: 100, BudgetThorough: 1500,
 		Assumptions: []string{"a node that stalls on one command does not answer later commands on the same connection either (Redis executes sequentially)", "virtual clock; msgTimeout only runs after an event, so a wake-up request follows the tick"}})
 	register(&Check{ID: "C20", Level: "model_checking",
-		Rule:      "topologies with 2 and 3 replicas of master A; every subset of replicas banned by the health monitor leaving >= 2 healthy; a closed-loop run of GET / MGET-fragment reads (and SET / HSCAN, master-only) routed under EVERY outcome of every random choice (choice enumeration, not sampling); oracle: per execution the node belongs to the owning set and is healthy (master for writes); across all outcomes (and all reads of a short run) every healthy replica serves some read; after a replica is re-parented by a topology update it serves its new master's slots and not the old one's; distinct = observable outcomes; nodes behave like cluster nodes (a replica serves a read only on a READONLY connection, else -MOVED to its master; a read counts as served by the node that answered it with data), with and without a configured password",
+		Rule:      "topologies with 2 and 3 replicas of master A; every subset of replicas banned by the health monitor leaving >= 2 healthy; a closed-loop run of GET / MGET-fragment reads (and SET / HSCAN, master-only) routed under EVERY outcome of every random choice (choice enumeration, not sampling); oracle: per execution the node belongs to the owning set and is healthy (master for writes); across all outcomes (and all reads of a short run) every healthy replica serves some read; after a replica is re-parented by a topology update it serves its new master's slots and not the old one's; distinct = observable outcomes; nodes behave like cluster nodes (a replica serves a read only on a READONLY connection, else -MOVED to its master; a read counts as served by the node that answered it with data), with and without a configured password; ban-recovery family with the REAL health-monitor goroutines running as cooperative threads (virtual 5 s ticker and sleep, probe outcome decided by the world): a replica is down while a read's dial to it fails, comes back, and after the ban window and one monitor round a run of reads under every random outcome must reach every healthy replica again (judged per group of executions: dial failure seen / not seen)",
 		Scenarios: c20Scenarios, BudgetQuick: 60, BudgetThorough: 600,
-		Assumptions: []string{"possibilistic core of the statistical claim: under a fair generator every selectable replica serves some reads in a long run iff it is selected by at least one outcome", "healthy = not flagged by the health monitor; ban-lifting semantics are not part of the oracle"}})
+		Assumptions: []string{"health monitor threads are sequentialised with the event loop (each runs from one blocking point to the next while the loop waits); data races between them are outside the technique", "possibilistic core of the statistical claim: under a fair generator every selectable replica serves some reads in a long run iff it is selected by at least one outcome", "healthy = not flagged by the health monitor; ban-lifting semantics are not part of the oracle"}})
 }
